@@ -46,7 +46,7 @@ REQUIRE = {
         "texts:utf8:bytes:wf": 3_000,
         "texts:utf8:bytes:malformed": 3_000,
         "texts:wide:bytes:wf": 1_000,
-        "texts:wide:bytes:malformed": 1_000,
+        "texts:wide:bytes:malformed": 600,
         "texts:wide:str": 300,
         "texts:narrow:bytes:wf": 300,
         "eval:calc_width": 500_000,
@@ -78,13 +78,13 @@ REQUIRE = {
         "cp:utf8": 1_112_064,
         "cp:wide": 60_000,
         "cp:narrow": 500,
-        "texts:utf8:str": 30_000,
-        "texts:utf8:bytes:wf": 30_000,
-        "texts:utf8:bytes:malformed": 30_000,
-        "texts:wide:bytes:wf": 10_000,
-        "texts:wide:bytes:malformed": 10_000,
-        "texts:wide:str": 1_000,
-        "texts:narrow:bytes:wf": 1_000,
+        "texts:utf8:str": 25_000,
+        "texts:utf8:bytes:wf": 25_000,
+        "texts:utf8:bytes:malformed": 100_000,
+        "texts:wide:bytes:wf": 15_000,
+        "texts:wide:bytes:malformed": 6_000,
+        "texts:wide:str": 10_000,
+        "texts:narrow:bytes:wf": 2_000,
         "eval:calc_width": 5_000_000,
         "eval:calc_text_pos": 5_000_000,
         "eval:calc_text_pos:stopped-before-wide": 200_000,
@@ -129,6 +129,7 @@ ASSUMES = [
     "malformed UTF-8: every byte that does not start a well-formed sequence is one character of one column (urwid's own documented fallback '?', pos+1); "
     "a UTF-8-encoded surrogate (ED A0..BF xx) is accepted as ONE 3-byte character if urwid's decode_one accepts it (lenient decoder, self-consistent), else 3 bytes",
     "wide mode: left-to-right scan, lead 0x81..0xFE + trail 0x40..0x7E|0x80..0xFE = one 2-column character, any other byte one column; "
+    "byte strings with a stand-alone 0x80 or 0xFF (in no double-byte repertoire; urwid's parity heuristic counts them as lead bytes) are not judged; "
     "str<->bytes agreement is only demanded for characters whose encoded length equals their wcwidth (half-width katakana via SS2, JIS X 0212 via SS3, "
     "ambiguous-width Greek/Cyrillic, controls and combining marks in 8-bit code pages are outside the alphabet: there the *encoding* breaks width == bytes)",
     "offsets passed as start/end are character boundaries of the model; target columns are >= 0; calc_trim_text is judged for 0 <= start_col <= end_col <= "
@@ -939,6 +940,7 @@ def run(ctx):
             ses.flush()
     phase["texts"] = round(time.process_time(), 2)
     ctx.extra["cpu_seconds_at_end_of_phase_shard0"] = phase
+    ctx.extra["every_unicode_scalar_value_judged_under_utf8"] = (not ctx.quick) and "code-point-sweep:utf-8" not in incomplete
     if incomplete:
         ctx.extra["incomplete_enumerations"] = incomplete
         ctx.inconc("enumeration-cut-by-budget:" + ",".join(incomplete))
